@@ -318,32 +318,55 @@ def repr_restore(repo: Repo, rep):
             continue
         stores = [x for x in body_nodes(f.node) if isinstance(x, ast.Assign) and any(isinstance(t, ast.Attribute) and t.attr == "repr" and norm(t.value) == "builtins" for t in x.targets)]
         stores += [x for x in body_nodes(f.node) if isinstance(x, ast.Call) and norm(x.func) == "setattr" and len(x.args) >= 2 and norm(x.args[0]) == "builtins" and isinstance(x.args[1], ast.Constant) and x.args[1].value == "repr"]
+        # a module-level flag / counter that says "repr is replaced right now" is the same kind of state
+        gl = {nm for s_ in ast.walk(f.node) if isinstance(s_, ast.Global) for nm in s_.names}
+        flag_stores = [x for x in body_nodes(f.node) if isinstance(x, (ast.Assign, ast.AugAssign)) and any(isinstance(t, ast.Name) and t.id in gl for t in (x.targets if isinstance(x, ast.Assign) else [x.target]))]
+        if len(flag_stores) >= 2:
+            stores += flag_stores
         if not stores:
             continue
         cfg = cfg_of(f, all_raise=True)
         nodes = [nd for nd in cfg.live if nd.kind == "stmt" and any(nd.ast is s or any(y is s for y in ast.walk(nd.ast)) for s in stores)]
+
+        def target_of(nd):
+            a_ = nd.ast
+            if isinstance(a_, ast.Assign):
+                return norm(a_.targets[0])
+            if isinstance(a_, ast.AugAssign):
+                return norm(a_.target)
+            return "builtins.repr"
+
+        def restoring(nd):
+            """the store puts back what the name holds at module level (real_repr / the initial value of the flag) or undoes a `+= 1`"""
+            a_ = nd.ast
+            t_ = target_of(nd)
+            if t_ == "builtins.repr":
+                return "real_repr" in norm(a_)
+            if isinstance(a_, ast.AugAssign):
+                return isinstance(a_.op, ast.Sub)
+            init = [x.value for x in f.module.globals_assigned.get(t_, []) if isinstance(x, (ast.Assign, ast.AnnAssign)) and x.value is not None]
+            return bool(init) and isinstance(a_, ast.Assign) and any(norm(a_.value) == norm(i_) for i_ in init)
+
         for nd in nodes:
             n += 1
-            later = [x for x in nodes if x is not nd]
-            r = reach(cfg, [b for b, l in nd.succ if l != "exc"], blocked_nodes=later)
-            restoring = [x for x in later if "real_repr" in norm(x.ast) or True]
-            if not later:
-                rep.violation("R-REPR-RESTORE", f, nd.ast, f"{f.qualname} assigns builtins.repr and never restores it", construct=f"{f.qualname}:never")
+            if restoring(nd):
+                rep.ok("R-REPR-RESTORE", f, nd.ast, "restoring assignment")
+                continue
+            undo = [x for x in nodes if x is not nd and target_of(x) == target_of(nd) and restoring(x)]
+            r = reach(cfg, [b for b, l in nd.succ if l != "exc"], blocked_nodes=undo)
+            if not undo:
+                rep.violation("R-REPR-RESTORE", f, nd.ast, f"{f.qualname} assigns `{target_of(nd)}` and never restores it", construct=f"{f.qualname}:never")
             elif cfg.exc in r or cfg.ret in r:
-                # is this the restoring store itself (the last one)?  then leaving is fine
-                if "real_repr" in norm(nd.ast):
-                    rep.ok("R-REPR-RESTORE", f, nd.ast, "restoring assignment")
-                else:
-                    rep.violation(
-                        "R-REPR-RESTORE",
-                        f,
-                        nd.ast,
-                        f"after `{short(nd.ast, 50)}` an exit of {f.qualname} (e.g. an exception raised by a user __repr__ while the value is rendered) is reached without restoring builtins.repr: "
-                        "repr() stays replaced for the rest of the session and later repr()-based snapshots are created with the wrong text",
-                        construct=f"{f.qualname}:unrestored",
-                    )
+                rep.violation(
+                    "R-REPR-RESTORE",
+                    f,
+                    nd.ast,
+                    f"after `{short(nd.ast, 50)}` an exit of {f.qualname} (e.g. an exception raised by a user __repr__ while the value is rendered) is reached without restoring `{target_of(nd)}`: "
+                    "the state 'repr is replaced' outlives the call and later values of the session are rendered with the wrong repr",
+                    construct=f"{f.qualname}:unrestored",
+                )
             else:
-                rep.ok("R-REPR-RESTORE", f, nd.ast, "builtins.repr restored on every exit")
+                rep.ok("R-REPR-RESTORE", f, nd.ast, f"`{target_of(nd)}` restored on every exit")
     # the scoped form
     scoped = [c for f in repo.pkg_funcs() if f.module.rel == "_code_repr.py" for c in body_nodes(f.node) if isinstance(c, ast.With) and any("patch" in norm(i.context_expr) and "builtins.repr" in norm(i.context_expr) for i in c.items)]
     if scoped:
